@@ -318,6 +318,16 @@ def checkStep (C : Chain α) (D : FSet α) : List E :=
 /-- the build accepts the step -/
 def accepts (C : Chain α) (D : FSet α) : Bool := (checkStep C D).isEmpty
 
+/-- what the built step keeps: an enumeration value that the base type refuses is stored as `None`
+    (facets.py:631, 641-655) and never equals an instance value -/
+def stored (C : Chain α) (D : FSet α) : FSet α :=
+  { D with enum := D.enum.map fun l => l.filter (validChain C) }
+
+/-- the chain as built, from the declared steps (farthest step first in the recursion) -/
+def storedChain : Chain α → Chain α
+  | [] => []
+  | D :: C => stored (storedChain C) D :: storedChain C
+
 /-- a chain every step of which was accepted by the build -/
 def Accepted : Chain α → Prop
   | [] => True
